@@ -154,7 +154,34 @@ def run(ctx):  # noqa: C901, PLR0912
             int_name = unparse(n.targets[0].elts[0])
     strips = [c for c in calls_in(tx.node) if call_name(c) in ('rstrip', 'strip', 'lstrip') and c.args and
               isinstance(c.args[0], ast.Constant) and isinstance(c.args[0].value, str) and '0' in c.args[0].value]
-    bad = [c for c in strips if call_name(c) != 'lstrip' and unparse(c.func.value) not in frac_names]
+    def _has_point(e, node):
+        """The string e certainly contains the decimal point (so stripping zeros from its right end stops there)."""
+        if isinstance(e, ast.JoinedStr):
+            return any(isinstance(v, ast.Constant) and '.' in str(v.value) for v in e.values)
+        if isinstance(e, ast.BinOp) and isinstance(e.op, ast.Add):
+            return _has_point(e.left, node) or _has_point(e.right, node) or \
+                any(isinstance(x, ast.Constant) and x.value == '.' for x in (e.left, e.right))
+        if isinstance(e, ast.Call) and call_name(e) in ('rstrip', 'strip', 'lstrip') and isinstance(e.func, ast.Attribute) and \
+                e.args and isinstance(e.args[0], ast.Constant) and '.' not in str(e.args[0].value):
+            return _has_point(e.func.value, node)
+        if isinstance(e, ast.Name) and node is not None:
+            if (f"'.' in {e.id}", True) in g.facts_at(node):
+                return True
+            d = g.unique_def(node, e.id)
+            if d is not None:
+                return _has_point(g.def_value(d, e.id), d)
+        return False
+    bad = []
+    for c in strips:
+        if call_name(c) == 'lstrip':
+            continue
+        recv = c.func.value
+        chars = c.args[0].value
+        # zeros may be stripped from the fraction alone, or from a string that still contains the point - and then the
+        # character set must not contain the point itself (otherwise the stripping runs on into the integer part)
+        if unparse(recv) in frac_names or ('.' not in chars and _has_point(recv, g.holder(c))):
+            continue
+        bad.append(c)
     ctx.ob('C18.R5', 'zero stripping only on the fraction', not bad,
            'trailing zeros are removed only from the fractional part' if not bad else
            f'{unparse(bad[0])} strips the characters {bad[0].args[0].value!r} from the whole number: once the point is gone '
@@ -180,10 +207,11 @@ def run(ctx):  # noqa: C901, PLR0912
     if not budget:
         ctx.ob('C18.R5', 'digit budget', False, 'the 18 digit limit of xsd:decimal output is not applied', fi=tx)
     for b in budget:
-        right = b.slice.upper.right
+        hb = g.holder(b)
+        right = g.symbolic(hb, b.slice.upper.right) if hb is not None else b.slice.upper.right   # temporaries written out
         txt = unparse(right)
         counts_sign = isinstance(right, ast.Call) and call_name(right) == 'len' and right.args and \
-            isinstance(right.args[0], ast.Name)
+            isinstance(right.args[0], (ast.Name, ast.Subscript))
         ok = not counts_sign
         ctx.ob('C18.R5', f'digit budget {unparse(b)}', ok,
                'the number of fractional digits kept is 18 minus the number of integer digits (sign and a lone leading zero '
